@@ -705,6 +705,53 @@ fn cli_files(ctx: &Ctx) {
             ctx.violation(&format!("C09:cli-keyring:{}", o.exit.describe()), json!({"keyring": hex_short(k, 300), "exit": o.exit.describe(), "stderr": o.stderr_s()}));
         }
     }
+    // key TEXTS that are almost well formed (characters inserted into, wrapped around or substituted in a valid public
+    // or locked private key), put where a key text can stand - a keyring entry that is then actually USED (as
+    // recipient, as sender, to name a sender) and the KEY argument of extract-pub / change-pass: errors only
+    {
+        let kwd = WorkDir::new("c09keys");
+        kwd.write("in.ktl", &f);
+        kwd.write("p.txt", b"x");
+        let mut texts: Vec<(String, String, String)> = Vec::new(); // (what, public text, private text)
+        for (what, t) in crate::c17cli::key_spellings(&bob.encoded_pk, &mut rng) {
+            texts.push((format!("public key: {}", what), t, bob.locked.clone()));
+        }
+        for (what, t) in crate::c17cli::key_spellings(&bob.locked, &mut rng) {
+            texts.push((format!("private key: {}", what), bob.encoded_pk.clone(), t));
+        }
+        let step = ctx.tier.pick(3, 1);
+        let texts: Vec<(String, String, String)> = texts.into_iter().enumerate().filter(|(i, _)| (i + ctx.seed as usize) % step == 0).map(|(_, t)| t).collect();
+        let kwdp = &kwd;
+        let (alice, f) = (&alice, &f);
+        par_for(texts.len(), crate::util::ncpu(), |i| {
+            let (what, pubt, privt) = &texts[i];
+            let krname = format!("k{}.txt", i);
+            kwdp.write(&krname, format!("{}\n[Key]\nName = bob\nPublicKey = {}\nPrivateKey = {}\n", alice.entry(true), pubt, privt).as_bytes());
+            let _ = f;
+            let runs: Vec<(&str, Cmd)> = vec![
+                ("used as recipient (encrypt -t)", Cmd::new(&kwdp.path, &["encrypt", "p.txt", "-t", "bob", "-f", "alice", "-k", &krname, "--env-pass"]).pass("apw")),
+                ("used as sender (encrypt -f)", Cmd::new(&kwdp.path, &["encrypt", "p.txt", "-t", "alice", "-f", "bob", "-k", &krname, "--env-pass"]).pass("bpw")),
+                ("used to decrypt (decrypt -t)", Cmd::new(&kwdp.path, &["decrypt", "in.ktl", "-t", "bob", "-k", &krname, "--env-pass"]).pass("bpw")),
+                ("KEY argument of extract-pub", Cmd::new(&kwdp.path, &["key", "extract-pub", privt, "--env-pass"]).pass("bpw")),
+                ("KEY argument of change-pass", Cmd::new(&kwdp.path, &["key", "change-pass", privt, "--env-pass"]).pass("bpw").env("KESTREL_NEW_PASSWORD", "n")),
+            ];
+            for (role, cmd) in runs {
+                let o = cmd.run();
+                ctx.eval();
+                let case = || json!({"key_text": what, "role": role, "public_text": pubt, "private_text": privt, "exit": o.exit.describe(), "stderr": o.stderr_s().chars().take(400).collect::<String>()});
+                match &o.exit {
+                    Exit::Code(0) => ctx.seen("cli almost-well-formed key text -> exit 0"),
+                    Exit::Code(1) if o.has_error_line() => {
+                        ctx.seen("cli almost-well-formed key text -> exit 1 + Error:");
+                        ctx.distinct(&format!("clikeytext|{}|{}", what, role));
+                    }
+                    Exit::Code(1) => ctx.violation("C09:cli-key-text:exit-1-without-error-line", case()),
+                    Exit::Timeout => ctx.inconclusive("C09 cli key texts: timeout"),
+                    other => ctx.violation(&format!("C09:cli-key-text:{}", other.describe().replace(' ', "-")), case()),
+                }
+            }
+        });
+    }
     // hostile environment values and hostile stdin (key names): errors only
     {
         use std::os::unix::ffi::OsStringExt;
@@ -785,6 +832,7 @@ pub fn run(ctx: &Ctx) {
     ctx.require("noise ", 300);
     ctx.require("cli argv -> exit", 5_000);
     ctx.require("cli hostile file -> exit 1", 20);
+    ctx.require("cli almost-well-formed key text -> exit", 100);
     ctx.require("cli structured argv -> exit", 300);
     ctx.require("cli hostile environment/stdin -> exit", 10);
 }
